@@ -240,7 +240,8 @@ class Check:
         ins = a['inspect']
         shaped = not (cls in ('EAStorySwap',) and len(srcs('storyID', True)) != 2) and \
             not (cls == 'EAItemSwap' and len(srcs('itemID', True)) != 2) and \
-            not (cls == 'StoryMove' and not direct('storyID'))
+            not (cls == 'StoryMove' and not direct('storyID')) and \
+            bool(X.findall(b, 'roID')) and (cls not in ('RunningOrder', 'RunningOrderReplace') or bool(X.findall(b, 'roSlug')))   # required by the schema of every ro* message
         if ins.startswith('err:'):
             if shaped:
                 return '%s.inspect() raised %s' % (cls, ins[4:])
